@@ -104,9 +104,25 @@ func Sim(t *testing.T, b *Base, kills []simrt.Kill, body func()) (rep *simrt.Rep
 			harnessErr = fmt.Sprintf("panic around bubble: %v", r)
 		}
 	}()
-	synctest.Test(t, func(*testing.T) {
-		rep = simrt.Run(cfg, body)
-	})
+	bubble := func(tt *testing.T) {
+		synctest.Test(tt, func(*testing.T) {
+			rep = simrt.Run(cfg, body)
+		})
+	}
+	if os.Getenv("VERIF_RACE_RING") != "" {
+		// Race companion: the harness's own bookkeeping is reported by the detector too (the driver filters
+		// those reports out), and the testing package fails - and synctest.Test then aborts - a test during
+		// which any report was printed. A throw-away subtest per case takes that failure instead.
+		if !t.Run("case", bubble) {
+			// something was reported during this case: keep its scenario for the driver
+			ring := os.Getenv("VERIF_RACE_RING")
+			if data, err := os.ReadFile(ring + ".cur"); err == nil {
+				os.WriteFile(fmt.Sprintf("%s.keep.%d", ring, caseNo), data, 0o644)
+			}
+		}
+	} else {
+		bubble(t)
+	}
 	if rep == nil {
 		return nil, "simulation produced no report"
 	}
@@ -155,6 +171,22 @@ func withTail(rt *rapid.T, tape []uint32) []uint32 {
 		tape = append(tape, TailMark+rapid.Uint32Range(0, 1<<15).Draw(rt, "tailSeed"))
 	}
 	return tape
+}
+
+// markCase serves the race companion (a -race build of the same workloads, see the driver): before a case
+// runs, its scenario is left in a file (kept under the case's number if the case draws a report) and a marker goes to stderr, so that a report the race
+// detector prints later on the same stream can be attributed to the case that was running.
+var caseNo int
+
+func markCase(sc Scenario) {
+	ring := os.Getenv("VERIF_RACE_RING")
+	if ring == "" {
+		return
+	}
+	caseNo++
+	data, _ := json.Marshal(sc)
+	os.WriteFile(ring+".cur", data, 0o644)
+	fmt.Fprintf(os.Stderr, "@@case %d\n", caseNo)
 }
 
 // DrawTape draws a choice tape. The scheduling policy is itself drawn per run
@@ -500,6 +532,7 @@ func RunProperty(t *testing.T, p *Property) {
 	failed := false
 	prop := func(rt *rapid.T) {
 		sc := p.Gen(rt)
+		markCase(sc)
 		out := sc.Execute(t)
 		if out.HarnessErr != "" {
 			harnessFail(p.ID, sc, out.HarnessErr)
@@ -622,6 +655,7 @@ func (r *runner) replay(t *testing.T, path string) {
 		fmt.Fprintf(os.Stderr, "HARNESS-ERROR: decode scenario: %v\n", err)
 		os.Exit(2)
 	}
+	markCase(sc)
 	out := sc.Execute(t)
 	if out.HarnessErr != "" {
 		harnessFail(r.prop.ID, sc, out.HarnessErr)
